@@ -119,7 +119,7 @@ def isIncluded (Q : Query) (t : Nat) : Bool := Q.filter.isEmpty || Q.filter.cont
 /-- the removal test of the last loop -/
 def removable (G : Graph) (Q : Query) (keep : List Nat) (t : Nat) : Bool :=
   let s := gcSibling G t
-  !G.hasParent s && !keep.contains s && isIncluded Q s
+  !G.hasParent s && !keep.contains s && !keep.contains t && isIncluded Q s
 
 /-- targets proposed for removal (in `AllTargets` order = label order, which is how the result is sorted) -/
 def removeTargets (G : Graph) (Q : Query) (keep : List Nat) : List Nat :=
